@@ -251,20 +251,71 @@ func tidy(ctx context.Context, fsys fs.FS, modRoot string, reg Registry, opts *T
 
 // tidyOnce resolves and tidies a single dependency graph.
 func (ld *loader) tidyOnce(ctx context.Context, rootPkgPaths []string, origRs *modrequirements.Requirements) (*modrequirements.Requirements, error) {
-	rs, pkgs, err := ld.resolveDependencies(ctx, rootPkgPaths, origRs)
+	// tidyRoots can promote a module that was only an indirect requirement
+	// to a root. Because the module graph is pruned, that brings the
+	// module's own requirements into the graph for the first time, which
+	// can raise the selected version of another root above the version its
+	// packages were loaded from. Resolve again from the tidied roots until
+	// every root is at its selected version.
+	for i := 0; ; i++ {
+		rs, pkgs, err := ld.resolveDependencies(ctx, rootPkgPaths, origRs)
+		if err != nil {
+			return nil, err
+		}
+		for _, pkg := range pkgs.All() {
+			if pkg.Error() != nil {
+				return nil, fmt.Errorf("failed to resolve %q: %v", pkg.ImportPath(), pkg.Error())
+			}
+		}
+		rs, err = ld.tidyRoots(ctx, rs, pkgs)
+		if err != nil {
+			return nil, fmt.Errorf("cannot tidy requirements: %v", err)
+		}
+		upgraded, err := ld.rootsAtSelectedVersions(ctx, rs)
+		if err != nil {
+			return nil, fmt.Errorf("cannot tidy requirements: %v", err)
+		}
+		if upgraded == nil || i >= maxTidyPasses {
+			return rs, nil
+		}
+		origRs = upgraded
+	}
+}
+
+// maxTidyPasses bounds the number of times tidyOnce resolves again from its
+// own result. Every pass strictly raises at least one root, so the bound is
+// only a guard against a registry that keeps changing.
+const maxTidyPasses = 20
+
+// rootsAtSelectedVersions returns nil if every root of rs is listed at the
+// version that minimal version selection picks for it in rs's own graph.
+// Otherwise it returns the requirements with those roots raised to their
+// selected versions.
+func (ld *loader) rootsAtSelectedVersions(ctx context.Context, rs *modrequirements.Requirements) (*modrequirements.Requirements, error) {
+	mg, err := rs.Graph(ctx)
 	if err != nil {
 		return nil, err
 	}
-	for _, pkg := range pkgs.All() {
-		if pkg.Error() != nil {
-			return nil, fmt.Errorf("failed to resolve %q: %v", pkg.ImportPath(), pkg.Error())
+	roots := slices.Clone(rs.RootModules())
+	changed := false
+	for i, m := range roots {
+		if m.IsLocal() {
+			continue
+		}
+		if v := mg.Selected(m.Path()); v != m.Version() {
+			mv, err := module.NewVersion(m.Path(), v)
+			if err != nil {
+				return nil, err
+			}
+			roots[i] = mv
+			changed = true
 		}
 	}
-	rs, err = ld.tidyRoots(ctx, rs, pkgs)
-	if err != nil {
-		return nil, fmt.Errorf("cannot tidy requirements: %v", err)
+	if !changed {
+		return nil, nil
 	}
-	return rs, nil
+	slices.SortFunc(roots, module.Version.Compare)
+	return modrequirements.NewRequirements(ld.mainModule.Path(), ld.registry, roots, rs.DefaultMajorVersions()), nil
 }
 
 // mergeRequirements returns the maximum selected version for every module
